@@ -62,6 +62,11 @@ def gen_graph_case(rng, max_n=7):
             call_tags[str(i)] = crng.choice(["t0", "t1", "c0"])
     case = dict(kind="graph", n=n, edges=[list(e) for e in edges], prios=prios, debug=sorted(debug), setup=sorted(setup),
                 tags=tags, consts=consts, call_tags=call_tags, queries=[])
+    irng = random.Random(rng.getrandbits(30))
+    if irng.random() < 0.4:
+        # some results are used through an index: as a dependency (v[j][0]) and as an extra output of the DAG
+        case["idx_edges"] = [list(e) for e in edges if irng.random() < 0.4]
+        case["idx_out"] = sorted(irng.sample(range(n), irng.randint(1, min(2, n))))
     return case
 
 
@@ -150,7 +155,7 @@ def build_dag(case, maxc=1, is_async=False, mk=None, attrs=None):
     def desc(*params):
         v = {}
         for i in range(n):
-            args = [v[j] for j in range(i) if (j, i) in eset]
+            args = [(v[j][0] if (j, i) in ixe else v[j]) for j in range(i) if (j, i) in eset]
             kw = {}
             if case["consts"].get(str(i)):
                 args.append(7)
@@ -158,6 +163,8 @@ def build_dag(case, maxc=1, is_async=False, mk=None, attrs=None):
                 kw["twz_tag"] = case["call_tags"][str(i)]
             if viol is not None and viol["dst"] == i:
                 src = params[0] if viol["how"] == "param" else v[viol["src"]]
+                if viol.get("index"):
+                    src = src[0]  # an INDEXED use of the parameter / result is a use of it all the same
                 if viol["via"] == "op":
                     args.append(src * 2)  # through an operator node (an ordinary, non-setup, non-debug node)
                 elif viol["via"] == "arg":
@@ -176,8 +183,9 @@ def build_dag(case, maxc=1, is_async=False, mk=None, attrs=None):
                     vsub(7, twz_active=v[viol["src"]])
                 else:
                     vsub0(twz_active=v[viol["src"]])
-        return tuple(v[i] for i in range(n))
+        return tuple(v[i] for i in range(n)) + tuple(v[j][0] for j in case.get("idx_out", []))
 
+    ixe = {tuple(e) for e in case.get("idx_edges", [])}  # dependencies consumed as an INDEXED part of the producer's result
     vsub = vsub0 = None
     if viol is not None and viol["via"] in SUBVIA:
         vs = (mk or tz.mknode)("vs", lambda *a, **k: ("vs",) + tuple(a))
@@ -380,8 +388,12 @@ def gen_violation(rng, case, k=None):
     if how == "param":
         # the DAG parameter may have a default value: it is a DAG argument all the same
         c["viol"] = dict(how="param", src=None, dst=dst, via=via, default=bool(rng.random() < 0.5))
+        if via in ("arg", "kw", "flag") and random.Random(rng.getrandbits(30)).random() < 0.4:
+            c["viol"]["index"] = True
     else:
         dbg = [i for i in range(dst) if i in case["debug"]]
         src = rng.choice(dbg) if dbg and rng.random() < 0.5 else rng.randrange(dst)
         c["viol"] = dict(how="node", src=src, dst=dst, via=via)
+        if via in ("arg", "kw", "flag") and random.Random(rng.getrandbits(30)).random() < 0.25:
+            c["viol"]["index"] = True
     return c
